@@ -40,8 +40,27 @@ def attr_value(a):
     return VALUE.get(a['type'], VALUE.get(a['base'].split(':')[-1], 'value'))
 
 
+def build_deep(cid, depth, path=()):
+    from saml2_tophat import ExtensionElement
+    t = table()[cid]
+    inst = get_class(cid)()
+    for a in t['attributes']:
+        setattr(inst, a['member'], attr_value(a))
+    if depth > 1:
+        for ch in t['children']:
+            if ch['cls'] not in table() or ch['cls'] in path:      # no class twice on one path (recursive schemas)
+                continue
+            kids = [build_deep(ch['cls'], depth - 1, path + (cid,)) for _ in range(2 if ch['list'] else 1)]
+            setattr(inst, ch['member'], kids if ch['list'] else kids[0])
+    inst.extension_elements.append(ExtensionElement('foreign', namespace=FOREIGN_NS, text='kept-%d' % depth, attributes={'a': 'b'}))
+    inst.extension_attributes['{%s}attr' % FOREIGN_NS] = 'kept-%d' % depth
+    return inst
+
+
 def build(v):
     from saml2_tophat import ExtensionElement
+    if v['kind'] == 'deep':
+        return build_deep(v['cls'], 3)
     t = table()[v['cls']]
     cls = get_class(v['cls'])
     inst = cls()
@@ -187,11 +206,12 @@ def main():
                 chk.sample({'variant': v, 'serialised': out.get('text', '')[:200]}, limit=4)
     chk.cov['exhaustive'] = chk.tier == 'thorough'
     chk.cov['rule'] = ('variants of Schema.tla for each of the exported classes (nothing set, each attribute, all attributes, all optional attributes empty, each child '
-                      'with 1..3 instances, all children, foreign child, foreign attribute, own-namespace look-alike of a declared attribute, XML-special, non-ASCII and multi-line / padded text): thorough '
-                      'all 15 788, quick the structural kinds plus a seeded third of the rest; distinct = distinct (class, variant)')
+                      'with 1..3 instances, all children, foreign child, foreign attribute, a three-level tree with everything set, own-namespace look-alike of a declared attribute, XML-special, non-ASCII and multi-line / padded text): thorough '
+                      'all 16 942, quick the structural kinds plus a seeded third of the rest; distinct = distinct (class, variant)')
     chk.cov['classes'] = len(table())
-    chk.assumptions = ['depth-1 instances (children are empty instances of their class); deeper nesting is reached through the same '
-                       'generic code path', 'text content restricted to two classes of strings per class']
+    chk.assumptions = ['single-feature variants are depth-1 instances (children are empty instances of their class); the "deep" variant of '
+                       'every class is a three-level tree with every attribute and child, lists of two, foreign content at every level',
+                       'text content restricted to three classes of strings per class']
     return chk.finish()
 
 
